@@ -8,7 +8,8 @@ TEXTS = {
         level_text="Seeded search over interleavings of 2-8 concurrent single/batch attestation and proposal requests on 1-4 shared keys, real "
                    "signer/ruler/locker/rules/badger code, one thread released at a time at lock/store/rules/sign yield points; every recorded "
                    "invoke/return history (stamped with scheduler event numbers, final export appended as a read) is checked by porcupine against "
-                   "the watermark state machine, and released signatures are checked pairwise for slashability. Exploration is the right level: "
+                   "the watermark state machine, and released signatures are checked pairwise for slashability. In a third of the runs clients abandon requests in flight (context cancelled at a drawn step; "
+                   "such requests may or may not have left their record, modelled with porcupine's nondeterministic model). Exploration is the right level: "
                    "the property quantifies over schedules, which only a controlled scheduler can enumerate reproducibly.",
         level_note=TRUST + " A non-linearizable verdict is reported only if the same operations run sequentially agree with the model (guards against an over-strict model)."),
     "C15": dict(
@@ -40,7 +41,8 @@ TEXTS["C03"] = dict(
                "restart covers every released signature, when Sign is invoked the live store and (sampled) a fresh process on a copy of the directory already cover the duty, with "
                "GOMAXPROCS=1 the value log must not grow after a storage call has returned. (2) The same kind of seeded workload in a real child process that SIGKILLs "
                "itself at its N-th storage point (entry and completion of Fetch/Store/BatchStore), N swept over the workload by consecutive seeds; the parent holds the signatures announced "
-               "on stdout, reopens the directory and requires coverage and refusal of every conflicting duty. (3) A child is traced with strace; from openat flags, writes and fsyncs a per-file "
+               "on stdout, reopens the directory and requires coverage and refusal of every conflicting duty; up to two further incarnations on the same directory are killed in turn "
+               "(drawn storage point 1..8, periodic pruning drawn per incarnation). (3) A child is traced with strace; from openat flags, writes and fsyncs a per-file "
                "durability model is built and, for every system-call boundary after the first released signature, images = durable prefix + {nothing, a write-back prefix, a torn prefix} of "
                "the volatile suffix (and torn synchronous writes) are opened by a fresh rules service, which must cover everything released before the cut.",
     level_note=TRUST + " Layer 1 is process-kill semantics on a quiescent directory image; layer 3 assumes append-only files and ordered directory operations (true for badger's value log and MANIFEST) "
@@ -64,7 +66,7 @@ TEXTS["C06"] = dict(
     level_text="The single-fault matrix (941 cases: 20 dependency/IO/input fault sites x 5 request kinds x batch sizes {1,2,3,5,17} x every position) is enumerated completely "
                "on every run of either tier against the real handler-to-badger stack, with faults injected through the repo's interfaces and, for the store, through "
                "the verifhook storage points; on top of it seeded runs inject store/rules/Sign faults at yield points of 2-6 concurrent requests, pre-drawn "
-               "lookup/permission/unlock faults and a store closed under load. Oracle: signature iff SUCCEEDED at every position, no signature at any position whose "
+               "lookup/permission/unlock faults and a store closed under load, a third of them over like-named accounts of two wallets. Oracle: signature iff SUCCEEDED at every position, no signature at any position whose "
                "path met a fault, no panic. fault_enumeration is the right level: the property quantifies over fault sites and sequences.",
     level_note=TRUST + " badger's WriteBatch.Flush never returns on a closed database; the simulator makes that one call fail instead of hanging (counted in evidence), see DESIGN.md section 9.")
 TEXTS["C05"] = dict(
@@ -122,7 +124,7 @@ TEXTS["C19"] = dict(
 TEXTS["C20"] = dict(
     technique="structure-aware seeded request generation through the protobuf wire encoding against real handlers in an isolated worker process, with liveness canary and write-ahead replay",
     level_text="Seeded structure-aware generation of requests for every RPC of the four client-facing services and of key-generation messages from non-peers (boundary byte lengths, absent "
-               "fields, extreme integers, empty / huge / nil-containing batches, malformed names), passed through a protobuf wire round trip and handed to the real handlers of an instance "
+               "fields, extreme integers, empty / huge / nil-containing batches, malformed names, listing paths assembled from regular-expression fragments), passed through a protobuf wire round trip and handed to the real handlers of an instance "
                "hosted by the worker process, each followed by a canary request from another client. A panic on the handler goroutine is recorded in-process; a panic on any other goroutine "
                "kills the worker, which the driver attributes to the seed written ahead of the run and confirms by replaying it in a fresh process.",
     level_note="An input-space property: no schedule is explored; the technique contributes process isolation, the canary and exact replay (DESIGN.md section 8). peers.Suitable is re-implemented, so "
